@@ -10,6 +10,7 @@ Lines (tab separated):
   gen.check   <module> <firstbytehex>          evaluate every declared prefix of the module starting with that byte
   gen.params  <module>                         evaluate the module's parameter subspace
   gen.end     <keysA> <keysB>                  all pairs sent; totals for cross-checking
+  gen.custody <accounts A> <accounts B> <differing>   bank balances of all accounts right after the import
   gen.op      <name> <outcome on A> <outcome on B>
   gen.bal     <account/denom> <A> <B>          a balance that differs after the continuation
   gen.balances <accounts> <differing>
@@ -24,6 +25,7 @@ the code did), and the round-trip monitors are evaluated on the real stores:
                                         (a `.` separates module and prefix: monitor names become file names in ./check)
   continuation_equal:<op>               a continuation operation has the same outcome / id on both chains
   continuation_equal:balances           all balances agree after the continuation
+  custody_roundtrip                     every bank balance (users, module accounts) is the same right after the import
   import_ok                             InitChain accepted the exported genesis
 -/
 -- DRIVER: prefix=gen ns=Comdex.Drv.Genesis
@@ -160,6 +162,7 @@ def handle (st : St) (seq : String) (f : List String) : St × List String :=
     | some m => ({ st with seen := (mod, byte) :: st.seen }, checkModule st seq m byte)
   | ["gen.params", mod] => (st, checkParams st seq mod)
   | ["gen.op", name, ra, rb] => (st, if ra == rb then [] else [s!"MON\t{seq}\tcontinuation_equal:{name}\tA={ra}\tB={rb}"])
+  | ["gen.custody", _, _, nd] => (st, if nd == "0" then [] else [s!"MON\t{seq}\tcustody_roundtrip\tdiffering={nd}"])
   | ["gen.bal", _, _, _] => (st, [])
   | ["gen.balances", _, nd] => (st, if nd == "0" then [] else [s!"MON\t{seq}\tcontinuation_equal:balances\tdiffering={nd}"])
   | "gen.note" :: _ => (st, [])
